@@ -1,5 +1,5 @@
 #!/bin/bash
 # re-runs all 20 checks against every stored behaviour-preserving change (../benigntool.sh --recheck), 2 in parallel
 cd /verif
-ls benign | xargs -P 3 -I{} sh -c 'cp benigntool.sh /tmp/bt_{}.sh; bash /tmp/bt_{}.sh --recheck {} > /tmp/benign_recheck_{}.log 2>&1; grep "^RESULT" /tmp/benign_recheck_{}.log' | sort > /tmp/recheck_benign.log
+ls benign | xargs -P ${BENIGN_PAR:-3} -I{} sh -c 'cp benigntool.sh /tmp/bt_{}.sh; bash /tmp/bt_{}.sh --recheck {} > /tmp/benign_recheck_{}.log 2>&1; grep "^RESULT" /tmp/benign_recheck_{}.log' | sort > /tmp/recheck_benign.log
 echo finished >> /tmp/recheck_benign.log
